@@ -27,13 +27,21 @@ def _call_of(v: Any) -> Optional[Dict[str, Any]]:
     return None
 
 
-def listing_tokens(v: Any) -> Optional[Tuple[Any, ...]]:
-    """Canonical form of `";".join(d.name + "[" + str(d.version) + "]" for d in deps)`."""
+def listing_tokens(v: Any, leaf: Any = None) -> Optional[Tuple[Any, ...]]:
+    """Canonical form of `";".join(d.name + "[" + str(d.version) + "]" for d in deps)` (comprehension or explicit loop)."""
     if not (isinstance(v, SStr) and len(v.frags) == 1 and v.frags[0].kind == "OP" and isinstance(v.frags[0].a, tuple) and v.frags[0].a[0] == "join"):
         return None
     sep = v.frags[0].a[1]
     pay = v.frags[0].b or {}
     item, var, over = pay.get("item"), pay.get("var"), pay.get("over")
+    seq = pay.get("seq")
+    if item is None and isinstance(seq, SList) and seq.mode == "carried" and leaf is not None:
+        from ..loopbuilt import contributions, initial_items, iter_base
+        cs = contributions(leaf, seq)
+        if len(cs) == 1 and cs[0]["how"] == "append" and cs[0]["loop"] is not None and not initial_items(seq):
+            item, var, over = cs[0]["value"], cs[0]["element"], iter_base(cs[0]["iter"])
+            if isinstance(item, str):
+                item = SStr([Frag("LIT", item)])
     if not isinstance(item, SStr) or not isinstance(var, SObj) or pay.get("cond"):
         return None
     toks = []
@@ -243,7 +251,7 @@ def hoist_obligations(ctx: Ctx, I: Interp) -> None:
             if getattr(e.target, "qual", "") == "Tag.extend" and e.value and isinstance(e.value[0], SList) and e.value[0].mode == "map":
                 cands.append(e.value[0].base)
             if getattr(e.target, "qual", "") == "Tag.append" and e.value and isinstance(e.value[0], SNew) and len(e.value[0].args) > 1:
-                lt0 = listing_tokens(e.value[0].args[1])
+                lt0 = listing_tokens(e.value[0].args[1], l)
                 if lt0 is not None:
                     cands.append(lt0[2])
         deps = [o for o in cands if _q(_call_of(o)).endswith(".get_dependencies") and (_call_of(o) or {}).get("recv") is gd[0].key]
@@ -261,7 +269,7 @@ def hoist_obligations(ctx: Ctx, I: Interp) -> None:
         ext = [e for e in calls if getattr(e.target, "qual", "") == "Tag.extend" and e.key is head]
         if listing:
             t = listing[0].value[0]
-            lt = listing_tokens(t.args[1]) if len(t.args) > 1 else None
+            lt = listing_tokens(t.args[1], l) if len(t.args) > 1 else None
             ok = lt is not None and (lt[0], lt[1]) == LISTING and deps and lt[2] is deps[0] and t.kwargs.get("type") == "application/html-dependencies"
             ctx.check(bool(ok), "C11.R4", "the listing script is ';'.join(name[version]) over the resolved list, typed application/html-dependencies", HOIST,
                       f"listing {short(t)}", f"the dependency listing is {short(t)}: not name[version] of every resolved dependency, ';'-separated, in one application/html-dependencies script",
@@ -307,7 +315,7 @@ def as_html_tags_obligations(ctx: Ctx, I: Interp) -> None:
     fn = prog.function(CORE, "HTMLDependency.as_html_tags")
     cfg = Config()
     cfg.opaque_all = True
-    cfg.loop_effects = False
+    cfg.loop_effects = True
 
     def mk(run: Any):
         s = SObj("self", {"HTMLDEP"})
@@ -325,8 +333,24 @@ def as_html_tags_obligations(ctx: Ctx, I: Interp) -> None:
                   f"as_dict kwargs { {k: short(x) for k, x in kw.items()} }", "as_html_tags does not forward lib_prefix/include_version to as_dict")
         ok = isinstance(v, SNew) and v.cls_name == "TagList"
         parts = []
+        allargs = v.__dict__.get("all_args", []) if ok else []
+        if ok and len(allargs) == 1 and isinstance(allargs[0], SSplat) and isinstance(allargs[0].value, SList) and allargs[0].value.mode == "carried":
+            # tags accumulated in a list by explicit loops, then TagList(*tags)
+            from ..loopbuilt import contributions, initial_items, iter_base
+            lst = allargs[0].value
+            for c in contributions(l, lst):
+                val = c["value"]
+                if c["loop"] is not None and isinstance(val, SNew) and val.cls_name == "Tag" and c["how"] == "append":
+                    src = iter_base(c["iter"])
+                    key = (src.meta.get("item_of") or (None, None))[1] if isinstance(src, SObj) else None
+                    parts.append((val.args[0] if val.args else None, key, bool(val.dstar) and val.dstar[0] is c["element"]))
+                elif c["loop"] is None and c["how"] == "append" and isinstance(val, SObj) and (val.meta.get("attr_of") or (None, None))[1] == "head":
+                    parts.append(("head", None, True))
+                else:
+                    parts.append(("?", short(val), False))
+            allargs = []
         if ok:
-            for x in v.__dict__.get("all_args", []):
+            for x in allargs:
                 y = x.value if isinstance(x, SSplat) else x
                 if isinstance(y, SList) and y.mode == "map" and isinstance(y.elt, SNew) and y.elt.cls_name == "Tag":
                     src = y.base
